@@ -266,8 +266,12 @@ def main():
     # 4. triage violations: group by role, confirm natively, match against known findings
     known = load_known()
     by_role = {}
+    ignored = 0
     for v in violations:
         role = mod.role(v)
+        if role is None:        # not a violation of THIS property (e.g. C18 re-running other harnesses)
+            ignored += 1
+            continue
         by_role.setdefault(role, []).append(v)
     confirmed = []; unconfirmed = []; known_hit = []
     exit_code = 0
